@@ -242,7 +242,11 @@ func (m *Muxer) WriteData(d *MuxerData) (int, error) {
 
 		bytesAvailable := m.packetSize - pktLen
 		if payloadStart {
-			pesHeaderLengthCurrent := pesHeaderLength + int(calcPESOptionalHeaderLength(d.PES.Header.OptionalHeader))
+			// Same rule as writePESHeader: padding stream and private stream 2 don't carry the optional header
+			pesHeaderLengthCurrent := pesHeaderLength
+			if d.PES.Header.StreamID == 0 || hasPESOptionalHeader(d.PES.Header.StreamID) {
+				pesHeaderLengthCurrent += int(calcPESOptionalHeaderLength(d.PES.Header.OptionalHeader))
+			}
 			// d.AdaptationField with pes header are too big, we don't have space to write pes header
 			if bytesAvailable < pesHeaderLengthCurrent {
 				pkt.Header.HasAdaptationField = true
